@@ -88,7 +88,7 @@ def main():
         "checks": checks,
         "notes": "Every check parses /repo's working tree on each run (VERIF_REPO overrides the root for scratch copies). Exit 0 = all rule instances hold; exit 1 + VIOLATION line = a "
                  "rule instance is violated and not listed in known_findings.json; exit 2 + ANALYSIS-ERROR = the analysis met a shape it does not model (never a silent pass). "
-                 "Thorough tier additionally runs the self-test (seeded single-instance breaks on scratch copies) and records it in evidence/selftest-<id>.json.",
+                 "A violation listed in known_findings.json (`known`: genuine defects recorded, not repaired) is printed as KNOWN-FINDING and does not change the exit status. Thorough tier additionally runs the self-test (the archived seeded breaking changes of the property, each applied to a scratch copy of the tree it applies to: /repo's working tree, or the commit of /repo's history it was written for, with the findings of that unpatched commit subtracted) and a mutation-sensitivity run over the functions the rules consult; both are recorded in evidence/selftest-<id>.json and evidence/mutation-<id>.json and never change the exit status.",
         "not_applicable": na,
     }
     (HERE / "MANIFEST.json").write_text(json.dumps(m, indent=1))
